@@ -944,6 +944,32 @@ fn pipeline_b(
         mkfifo(&dbpath.join("zz-stray-fifo-1.0"));
         let _ = std::os::unix::fs::symlink("zz-loop-1.0", dbpath.join("zz-loop-1.0"));
     }
+    if hash_seed % 11 == 4 {
+        // a database so deep that "<db>/<entry>" can still be named but "<db>/<entry>/+COMMENT"
+        // cannot (ENAMETOOLONG): an entry like any other that is not a package
+        let entry_name = "zz-long-1.0";
+        let root_len = sd.root().as_os_str().len();
+        let target = 4095 - (1 + entry_name.len());
+        if root_len + 300 < target {
+            let mut deep = sd.root().to_path_buf();
+            let mut len = root_len;
+            while len + 1 + 200 + 2 < target {
+                deep.push("p".repeat(200));
+                len += 201;
+            }
+            deep.push("q".repeat(target - len - 1));
+            if std::fs::create_dir_all(&deep).is_ok() && std::fs::create_dir(deep.join(entry_name)).is_ok() {
+                ctx.fault("database_at_path_max");
+                if let Ok(mut db) = PkgDB::open(&deep) {
+                    let mut n = 0;
+                    while n < 8 && db.next().is_some() {
+                        n += 1;
+                    }
+                    ep!(ctx, "PkgDB::next (database at PATH_MAX)", n < 8);
+                }
+            }
+        }
+    }
     if hash_seed % 16 == 0 {
         // the database path holds a plain file (a pkgdb.byfile.db-style database, or a
         // directory lost and replaced): opening and iterating it must return normally
